@@ -120,7 +120,7 @@ def main():
     styles = ["array", "scalar"]
     timeout = 20000
     if args.thorough:
-        topos = topos + families.E(3, 4) + families.random_topos(args.seed, 40)
+        topos = topos + families.E(4, 5) + families.E(3, 4, maxN=5) + families.random_topos(args.seed, 40)
         timeout = 60000
     items = []
     for k, t in enumerate(topos):
@@ -159,8 +159,8 @@ def main():
                               "Node.get_upstream_speed_and_flow", "Node.get_downstream_density", "Origin.*", "MainstreamOrigin.*",
                               "MeteredOnRamp.*", "SimplifiedMeteredOnRamp.*", "Destination.get_density", "CongestedDestination.get_density",
                               "engines.numpy.* primitives", "engines.casadi.* primitives via Engine.to_function(compact=0) IR"],
-        "bounds": {"family": "K (18 curated)" + (" + E(3,4) + R(seed,40)" if args.thorough else ""),
-                   "segments_per_link": "<= 3", "parameters": "all symbolic, distinct per link/origin (lanes numeric on CasADi side when phi is given)"},
+        "bounds": {"family": "K (20 curated)" + (" + E(4,5) [725 structures up to isomorphism] + E(3,4) with up to 5 segments + R(seed,40)" if args.thorough else ""),
+                   "segments_per_link": "<= 3 (quick), <= 5 (thorough)", "parameters": "all symbolic, distinct per link/origin (lanes numeric on CasADi side when phi is given)"},
         "samples": samples[:12] or [{"note": "all queries closed syntactically"}],
         "exhaustive": False,
     }
